@@ -561,7 +561,10 @@ fn run_case_sim(case: &Value) -> Value {
     let queues: Vec<Q> = (0..nhosts).map(|_| Rc::new(RefCell::new(VecDeque::new()))).collect();
     let outs: Vec<Rc<RefCell<Vec<Value>>>> = (0..nhosts).map(|_| Rc::new(RefCell::new(Vec::new()))).collect();
     let notifies: Vec<Rc<tokio::sync::Notify>> = (0..nhosts).map(|_| Rc::new(tokio::sync::Notify::new())).collect();
-    for h in 0..nhosts {
+    // registration order of the hosts (the order a host set resolves in)
+    let reg_order: Vec<usize> =
+        if cfg["reg_rev"].as_bool().unwrap_or(false) { (0..nhosts).rev().collect() } else { (0..nhosts).collect() };
+    for h in reg_order {
         let q = queues[h].clone();
         let out = outs[h].clone();
         let nf = notifies[h].clone();
@@ -602,6 +605,23 @@ fn run_case_sim(case: &Value) -> Value {
             continue;
         }
         let h = st[1].as_u64().unwrap() as usize;
+        if name == "crash" && st.get(2).and_then(|v| v.as_str()) == Some("grouped") {
+            // already crashed and bounced by the one Sim::crash call of its group
+            obs.push(json!(["ok"]));
+            decisions.push(json!([]));
+            continue;
+        }
+        if name == "crash" && st.get(2).and_then(|v| v.as_str()) == Some("group") {
+            // ONE Sim::crash call for a host set given as a regex (this step and the following
+            // "grouped" crash steps name its members), then one Sim::bounce call for the same set
+            let set = regex::Regex::new(st[3].as_str().unwrap()).unwrap();
+            sim.crash(set.clone());
+            let d = decisions_json();
+            sim.bounce(set);
+            obs.push(json!(["ok"]));
+            decisions.push(d);
+            continue;
+        }
         if name == "crash" {
             if host_returns {
                 queues[h].borrow_mut().push_back(json!(["__return", h]));
